@@ -522,7 +522,15 @@ def _rx_account(rep, kind, st):
         rep.nontriv(("rx", kind, cls, info.get("what"), min(len(octets), 12)))
 
 
+def _env_guard(status, meta):
+    """A trace rejected on an environment-assumption clause means the *stimulus* left the Env of the specification:
+    a defect of this harness (machinery error), never a violation of the property."""
+    if status == "env_illegal_input":
+        raise tlc.TLCError("stimulus outside the specification's environment assumptions: %s" % (meta,))
+
+
 def classify_rx(trace, matched, status, meta):
+    _env_guard(status, meta)
     k = matched if status != "ok" else matched + 1
     pattern = "other"
     if 0 < k <= len(trace):
@@ -630,8 +638,8 @@ def check_C02(rep):
                                  "is silently replaced by FULL for the same reason (see fixes/C02-standalone-speed-none.diff)")
         if drivers[kind] is None:
             continue
+        cyc = [dict({"rst": 0}, **c) for c in cyc]
         if kind == "device":
-            cyc = [dict(c) for c in cyc]
             cyc[0].update(DEVICE_STATIC)
             cyc[0].setdefault("tx_ready", 1)
         raw = drivers[kind].run(cyc)
@@ -853,6 +861,7 @@ def _tx_script_from_behaviour(beh):
 
 
 def classify_tx(trace, matched, status, meta):
+    _env_guard(status, meta)
     k = matched if status != "ok" else matched + 1
     pattern = "other"
     if 0 < k <= len(trace):
@@ -1198,6 +1207,7 @@ def _ob_reset_traces(rng):
 
 
 def classify_ob(trace, matched, status, meta):
+    _env_guard(status, meta)
     k = matched if status != "ok" else matched + 1
     pattern = "other"
     if 0 < k <= len(trace):
@@ -1284,6 +1294,7 @@ def check_C28(rep):
     drvs = {d: make_ob_driver(d) for d in domains}
     items = []
     for n_job, (cyc, origin, meta) in enumerate(jobs):
+        cyc = [dict({"rst": 0}, **c) for c in cyc]
         for dom in domains:
             if quick and dom is not None and not (n_job % 3 == 0 or origin == "domain-reset"):
                 continue
@@ -1452,6 +1463,7 @@ def _sof_events(rng, n):
 
 
 def classify_sof(trace, matched, status, meta):
+    _env_guard(status, meta)
     k = matched if status != "ok" else matched + 1
     pattern = "other"
     steps = trace["steps"]
